@@ -122,14 +122,31 @@ func (b typedBlock) Close() error      { return b.l.Close() }
 func (b typedBlock) Raw() klevdb.Log   { return b.l.Raw() }
 func (b typedBlock) AsLog() klevdb.Log { return &typedRaw{t: b.l} }
 
+// innerShim sits between a blocking wrapper and the log it wraps and turns the wrapper's calls into
+// the log into pause points (the harness's own, outside klevdb): a wrapper that consults the log at
+// other moments than the unchanged one does (for instance on its first blocking call) can be held
+// there.
+type innerShim struct{ klevdb.Log }
+
+func (s innerShim) NextOffset() (int64, error) {
+	n, err := s.Log.NextOffset()
+	hookAt("inner.nextOffset") // after the value was read: whoever asked now holds a value that can go stale
+	return n, err
+}
+
 // openBlock opens the blocking wrapper: directly (OpenBlocking / OpenTBlocking) or, with wrap, by
 // wrapping an already opened log (WrapBlocking / OpenT + WrapTBlocking).
 func openBlock(dir string, typed bool, wrap bool) (blockLog, error) {
 	opts := klevdb.Options{CreateDirs: true, KeyIndex: true, Rollover: 300}
 	switch {
 	case typed && wrap:
-		t, err := klevdb.OpenT[[]byte, []byte](dir, opts, poisonCodec{}, poisonCodec{})
+		raw, err := klevdb.Open(dir, opts)
 		if err != nil {
+			return nil, err
+		}
+		t, err := klevdb.WrapT[[]byte, []byte](innerShim{raw}, poisonCodec{}, poisonCodec{})
+		if err != nil {
+			raw.Close()
 			return nil, err
 		}
 		l, err := klevdb.WrapTBlocking[[]byte, []byte](t)
@@ -149,7 +166,7 @@ func openBlock(dir string, typed bool, wrap bool) (blockLog, error) {
 		if err != nil {
 			return nil, err
 		}
-		l, err := klevdb.WrapBlocking(raw)
+		l, err := klevdb.WrapBlocking(innerShim{raw})
 		if err != nil {
 			raw.Close()
 			return nil, err
@@ -444,6 +461,21 @@ func (br *bRun) judge(replay map[string]any, finalNext int64, closeOp *cOp) bool
 			}
 			br.cov.Add("c18.wakes_explained", 1)
 		}
+		// 2b. a call at or beyond NextOffset does not return at all (it parks) unless something woke it
+		if !parked && o.Off >= 0 && o.Err == "" && !a.cancelled.Load() {
+			invoked := false
+			for _, b := range br.actors {
+				if b.op == nil || b == a {
+					continue
+				}
+				if (b.kind == "publisher" || b.kind == "closer") && b.op.Call != 0 && b.op.Call < o.Ret {
+					invoked = true
+				}
+			}
+			if !invoked && o.Off >= a.atNext && !br.perturb {
+				return report("returned-without-wake:"+a.offCls, fmt.Sprintf("%s was invoked at or beyond NextOffset (%d) and returned without parking although no Publish, Close or cancel had been invoked", o, a.atNext))
+			}
+		}
 		// 5. errors
 		switch {
 		case o.Err == "":
@@ -589,7 +621,7 @@ func enumerateBScenarios(tier string, seed int64, scale float64) []bScenario {
 	r := NewRand(seed, 1818)
 	type hw struct{ held, window string }
 	var hws []hw
-	for _, w := range []string{"notify.wait.afterFast", "notify.wait.holdingToken", "notify.wait.beforePark", "blocking.consume.afterWait"} {
+	for _, w := range []string{"notify.wait.afterFast", "notify.wait.holdingToken", "notify.wait.beforePark", "blocking.consume.afterWait", "inner.nextOffset"} {
 		hws = append(hws, hw{"waiter", w})
 	}
 	for _, w := range []string{"blocking.publish.beforeNotify", "notify.set.holdingToken", "notify.set.afterStore", "notify.set.afterBroadcast"} {
@@ -657,10 +689,17 @@ func runBScenario(cfg *RunCfg, rep *Reporter, cov *Cov, idx int, sc bScenario) {
 		// publish one more and delete it again: NextOffset stays, the tail is a hole
 		if nx2, err := br.presetPublish(1); err == nil {
 			o := &cOp{Client: 99, Kind: "delete", Offsets: []int64{nx2 - 1}}
-			execOp(l.Raw(), o)
+			if idx%2 == 1 {
+				// the first and the newest message of the head in one call, a survivor in between
+				o.Offsets = []int64{0, nx2 - 1}
+			}
+			execOp(l.AsLog(), o)
 			br.preset = append(br.preset, o)
 			next = nx2
 		}
+	}
+	if sc.window == "inner.nextOffset" {
+		sc.reopen = true // the held waiter is the first blocking call of a fresh wrapper over the shim
 	}
 	if sc.reopen {
 		// the wrapper is closed and opened again over the log that now has content: its notifier
@@ -669,7 +708,7 @@ func runBScenario(cfg *RunCfg, rep *Reporter, cov *Cov, idx int, sc bScenario) {
 			rep.Inconclusive("close before reopen failed")
 			return
 		}
-		l, err = openBlock(br.dir, sc.typed, idx%2 == 0)
+		l, err = openBlock(br.dir, sc.typed, idx%2 == 0 || sc.window == "inner.nextOffset")
 		if err != nil {
 			rep.Inconclusive("reopen blocking failed")
 			return
